@@ -627,6 +627,109 @@ def stream_fncall(ck, model_ok, stdsql):
     conn.close()
 
 
+# ----------------------------------------------------------------------------- (d) f-strings (process_concat)
+
+def stream_fstring(ck, model_ok):
+    """`derive {d = E1} | select {v0 = f"..{d}.."}`: std.concat / process_concat.  Model text (select's concat construct:
+    CONCAT( ) or a `||` chain, parts never parenthesised) vs compile; RQ of the f-string (left-nested std.concat) vs the
+    hook; and, on sql.sqlite, the emitted expression vs the chain with every part parenthesised, both executed."""
+    import sqlite3
+    from .c02_classify import classify_fncall
+    defs = [e1 for e1, _ in G.let_cases()]
+    uniq = []
+    for e1 in defs:
+        if e1 not in uniq:
+            uniq.append(e1)
+    shapes = [[("c", 3), ("s", "x")], [("s", "x"), ("c", 3)], [("s", "p"), ("c", 3), ("s", "q")], [("c", 3), ("c", 0)],
+              [("c", 0), ("s", "-"), ("c", 3)], [("c", 3), ("c", 3)]]
+    cases = [(e1, sh) for e1 in uniq for sh in shapes]
+
+    def fsrc(sh):
+        return 'f"' + "".join(("{%s}" % "abcd"[v]) if k == "c" else v for k, v in sh) + '"'
+
+    def fcoq(sh):
+        return "[" + "; ".join(("inr %d%%nat" % v) if k == "c" else "inl %s" % G_codes(v) for k, v in sh) + "]"
+    progs = ["from t | derive {d = %s} | select {v0 = %s}" % (G.prql(e1), fsrc(sh)) for e1, sh in cases]
+    model = [None] * len(cases)
+    if model_ok:
+        try:
+            hdr = M.HEADER.replace("Model.EvalDoc", "Model.EvalDoc Model.SqlSem Model.SqlCompat Model.C02Probe")
+            model = coq_eval_retry(ck, hdr, ["probe_fstr %s (%s : list (str + nat))" % (G.coq(e1), fcoq(sh)) for e1, sh in cases])
+        except (RuntimeError, ValueError, TypeError) as ex:
+            ck.coverage["fstring_model_error"] = str(ex)[-600:]
+            ck.violation("the model could not be evaluated on f-strings", {"kind": "model-evaluation-failed", "error": str(ex)[-600:]}, no_input=True)
+    rows = [(x, y, z) for x in FN_DOMAIN for y in FN_DOMAIN for z in FN_DOMAIN]
+    conn = sqlite3.connect(":memory:")
+    conn.execute("CREATE TABLE t(a, b, c)")
+    conn.executemany("INSERT INTO t VALUES (?, ?, ?)", rows)
+    for di, dialect in enumerate(M.DIALECTS):
+        rq = [None] * len(progs)
+        comp = M.compile_programs(progs, dialect, rq=rq)
+        dsql = {}
+        keys = [G.prql(e1) for e1 in uniq]
+        for key, r in zip(keys, M.compile_batch(keys, dialect)):
+            dsql[key] = r[0] if r and r[0] not in ("ERR", None) else None
+        hook_missing = 0
+        for k, ((e1, sh), got) in enumerate(zip(cases, comp)):
+            ck.stat("fstring", "%s:%s" % (dialect, "rejected" if got[0] == "ERR" else "compiled"))
+            if got[0] in ("ERR", None) or model[k] is None:
+                continue
+            inl, per, mrq, hasfn = model[k]
+            if not inl:
+                ck.stat("fstring", dialect + ":definition-not-inlinable-in-the-model")
+                continue
+            mt = M.codes_text(per[di][0])
+            bad = Q.triples_py((per[di][1], []))
+            case = {"stream": "fstring", "dialect": dialect, "src": progs[k], "sql": got[0], "model_sql": mt, "bad_triples": bad,
+                    "has_concat_function": bool(hasfn[di])}
+            ck.count("fstring", dialect + "|" + progs[k], nontrivial=True)
+            if mt is not None and mt != got[0]:
+                c2 = dict(case); c2["stream"] = "sqltext"; c2["model"] = mt; c2["impl"] = got[0]
+                ck.disagreement("SQL text differs for %r (%s): model %r, implementation %r" % (progs[k], dialect, mt, got[0]), c2, classify_text)
+            r = rq[k]
+            if r and r[0] == M.HOOK_MISSING:
+                hook_missing += 1
+            elif r and len(r) == 2 and all(x is not None for x in r):
+                m_d, m_v = M.codes_text(("Some", mrq[0])), M.codes_text(("Some", mrq[1]))
+                ck.count("rq", "%s|fstring|%s" % (dialect, progs[k]), nontrivial=True)
+                if r[0][0] != m_d or r[1][0] != m_v:
+                    ck.disagreement("RQ of the f-string program differs for %r: model %s / %s, implementation %s / %s" % (progs[k], m_d, m_v, r[0][0], r[1][0]),
+                                    {"stream": "rq", "pass": "resolve", "dialect": dialect, "src": progs[k], "model": [m_d, m_v], "impl": [r[0][0], r[1][0]]}, classify_text)
+            else:
+                ck.stat("rq", dialect + ":outside-the-hook-view")
+            # differential execution: every part parenthesised
+            parts = []
+            for kind, v in sh:
+                if kind == "s":
+                    parts.append("'" + v + "'")
+                elif v == 3:
+                    parts.append(None if dsql.get(G.prql(e1)) is None else "(" + dsql[G.prql(e1)] + ")")
+                else:
+                    parts.append("abc"[v])
+            if any(x is None for x in parts):
+                continue
+            ref = " || ".join(parts)
+            case["reference_sql"] = ref
+            try:
+                r1 = conn.execute("SELECT %s FROM t" % got[0]).fetchall()
+                r2 = conn.execute("SELECT %s FROM t" % ref).fetchall()
+            except sqlite3.Error:
+                ck.stat("fstring", dialect + ":not-executable-on-sqlite")
+                continue
+            ck.stat("fstring", dialect + ":executed")
+            diff = [i for i in range(len(rows)) if r1[i] != r2[i]]
+            if diff:
+                i = diff[0]
+                case.update({"row": {"a": rows[i][0], "b": rows[i][1], "c": rows[i][2]}, "observed": repr(r1[i][0]), "expected": repr(r2[i][0]),
+                             "rows_wrong": len(diff), "rows_compared": len(rows)})
+                ck.disagreement("the engine regroups the f-string of %r (%s): `%s` gives %r, the intended `%s` gives %r at %s (%d/%d rows)" % (
+                    progs[k], dialect, got[0], r1[i][0], ref, r2[i][0], case["row"], len(diff), len(rows)), case, classify_fncall)
+        if hook_missing:
+            ck.violation("the verif:preprocess hook (pass normalize) is not in this tree (f-string programs; fail closed)",
+                         {"kind": "hook-missing", "hook": "verif:preprocess", "programs": hook_missing}, no_input=True)
+    conn.close()
+
+
 def G_codes(s):
     return "[" + "; ".join(str(ord(c)) for c in s) + "]%N"
 
